@@ -742,11 +742,11 @@ class ServiceInfo(RecordUpdateListener):
         """
         cache = zc.cache
         original_server_key = self.server_key
-        cached_srv_record = cache.get_by_details(self._name, _TYPE_SRV, _CLASS_IN)
-        if cached_srv_record:
+        # All of them, oldest first: the one added last may have expired
+        # (and not been purged yet) while an older one is still alive
+        for cached_srv_record in cache.get_all_by_details(self._name, _TYPE_SRV, _CLASS_IN):
             self._process_record_threadsafe(zc, cached_srv_record, now)
-        cached_txt_record = cache.get_by_details(self._name, _TYPE_TXT, _CLASS_IN)
-        if cached_txt_record:
+        for cached_txt_record in cache.get_all_by_details(self._name, _TYPE_TXT, _CLASS_IN):
             self._process_record_threadsafe(zc, cached_txt_record, now)
         if original_server_key == self.server_key:
             # If there is a srv which changes the server_key,
